@@ -78,6 +78,7 @@ type hdrOpts struct {
 	Probe     bool // C19 probe: at a seed-chosen step, submit each peer chain's reply and stop
 	ProbeEnd  bool // C19 probe after the last step
 	Proofs    bool // C18: verify merkle proofs into every pool block after every operation
+	LiveLoad  bool // "load" is Load on the repository object in use (not on a fresh one, as after a restart)
 	Seed      int64
 }
 
@@ -498,6 +499,9 @@ func (w *hdrWorld) run() {
 				}
 			case "load":
 				r2 := w.newRepo(w.store)
+				if w.o.LiveLoad {
+					r2 = w.repo
+				}
 				w.cmp("C11")
 				if err := w.doLoad(r2); err != nil {
 					w.fail("C11", step, op, "load error "+err.Error())
@@ -1252,6 +1256,7 @@ func hdrMain(args []string) int {
 	fs.BoolVar(&o.Probe, "probe", false, "C19 locator probe at a seed-chosen step")
 	fs.BoolVar(&o.ProbeEnd, "probeend", false, "C19 locator probe after the last step")
 	fs.BoolVar(&o.Proofs, "proofs", false, "C18: merkle proofs into every pool block after every operation")
+	fs.BoolVar(&o.LiveLoad, "liveload", false, "load into the repository object in use")
 	fs.Int64Var(&o.Seed, "seed", 1, "seed")
 	workers := fs.Int("workers", 16, "parallel workers")
 	in := fs.String("in", "", "behaviour file (jsonl); stdin if empty")
